@@ -33,6 +33,7 @@ FINDER_BOUNDS = {
     'find_limit_slice': 'n <= 6 items, begin/end in -8..8',
     'find_related_text': 'every operator over about 40 known selections of a 9-character text; Equals from every known and unknown single selection and from every ordered triple of 6 selections (2 of them unknown)',
     'find_handles_setops': 'every pair of duplicate-free sequences of length <= 4 over 5 handles',
+    'find_lookup_promises': 'two histories: an annotation naming the same text, annotation and data twice; protect_text after an annotation that already carries its validation text',
     'find_strip_ids': '0-4 annotations with data, one of them removed or none, strip annotation ids / data ids / both; every id, handle and temporary id looked up',
     'find_reindex_ids': 'every subset of 6 annotations removed, then reindex()',
     'find_store_consistency': '12 annotations over all nine selector kinds, 3 index configurations, every single and double annotation removal, 10 other removals, 6 protect_text histories',
